@@ -96,6 +96,7 @@ def build(verbose=False) -> tuple[bool, str]:
     try:
         from harness import reflect
         reflect.write_consts()
+        reflect.write_kernels()
         bad = scan_forbidden()
         if bad:
             return False, "forbidden constructs: " + "; ".join(bad)
@@ -110,7 +111,8 @@ def build(verbose=False) -> tuple[bool, str]:
             rc, out = _run(["coq_makefile", "-f", "_CoqProject", "-o", "Makefile"], cwd=COQ)
             if rc != 0:
                 return False, out
-        rc, out = _run(["timeout", "1500", "make", "-k", f"-j{NPROC}"], cwd=COQ, timeout=1600)
+        # a per-file limit as well: a tactic that loops must not hold the build lock for the whole budget
+        rc, out = _run(["timeout", "1500", "make", "-k", f"-j{NPROC}", "COQC=timeout 600 coqc"], cwd=COQ, timeout=1600)
         if rc != 0:
             # fail closed per file: a file that no longer compiles must not leave a stale .vo behind,
             # so that everything depending on it fails to load (other properties stay checkable)
